@@ -49,6 +49,13 @@ func Gen(t *rapid.T) Case {
 		c.Pool = rapid.SampledFrom(pools[1:]).Draw(t, "pool")
 	case 4: // no root at all: the system pool
 	}
+	if (c.CertFile != "" || c.KeyFile != "" || c.CAFile != "") && rapid.IntRange(0, 3).Draw(t, "paths-read-before") == 0 {
+		c.Prev = &Prev{
+			CertFile: rapid.SampledFrom(certFiles).Draw(t, "prev_cert_file"),
+			KeyFile:  rapid.SampledFrom(keyFiles).Draw(t, "prev_key_file"),
+			CAFile:   rapid.SampledFrom(caFiles).Draw(t, "prev_ca_file"),
+		}
+	}
 	c.ServerName = rapid.SampledFrom(serverNames).Draw(t, "server_name")
 	c.Insecure = rapid.Bool().Draw(t, "insecure")
 	c.Callback = rapid.SampledFrom(callbacks).Draw(t, "callback")
@@ -147,6 +154,15 @@ func Classify(c Case) (bool, []string) {
 	var labels []string
 	groups := 0
 	invalid := false
+	if c.Prev != nil {
+		labels = append(labels, "file paths read by an earlier call")
+		if c.CAFile != "" && c.Prev.CAFile != "" && c.Prev.CAFile != c.CAFile {
+			labels = append(labels, "CA file content changed since an earlier call ("+c.Prev.CAFile+" -> "+c.CAFile+")")
+		}
+		if c.CertFile != "" && c.Prev.CertFile != "" && (c.Prev.CertFile != c.CertFile || c.Prev.KeyFile != c.KeyFile) {
+			labels = append(labels, "certificate/key file content changed since an earlier call")
+		}
+	}
 
 	switch {
 	case c.CertFile == "" && c.KeyFile == "" && c.LoadedCert == "" && c.LoadedKey == "":
